@@ -13,7 +13,8 @@ LEVEL = 'fault_enumeration'
 ASSUMPTIONS = [
     'part 1 compares str(soup), repr(soup.expr), the canonical tree and the positions of all descendants',
     'part 2 ranges over L_wf documents without math, verbatim or list regions and without a bare ] in text; every '
-    'structural closer (closing } of a group or argument, closing ] of an argument, \\end{name}) is deleted, one at a time',
+    'structural closer (closing } of a group or argument, closing ] of an argument, \\end{name}, the closing brace of '
+    '\\begin{name} and of \\end{name}) is deleted, one at a time',
     'part 3 (only closers inserted) is judged under the side conditions of C08 (no NUL/DEL, fixed-signature commands '
     'with brace-delimited arguments), and modulo the whitespace removal C08 permits',
 ]
@@ -107,6 +108,9 @@ def closers(items):
             out.append((k, d['be'], d['be'] + 1))
         elif k == 'E':
             out.append(('E', d['be'], d['e']))
+            out.append(('E}', d['e'] - 1, d['e']))                      # the brace of \end{name}
+            b = d['name_spans'][0][1]
+            out.append(('B}', b, b + 1))                                # the brace of \begin{name}
     return out
 
 
